@@ -59,7 +59,7 @@ def decode_case(raw):
 def strategy(tier):
     return st.tuples(gen.CFG, st.lists(gen.STEP, min_size=2, max_size=10), st.lists(gen.STEP, min_size=0, max_size=8),
                      st.lists(st.tuples(st.integers(0, 8), gen.STEP), min_size=0, max_size=15),
-                     st.lists(st.tuples(st.integers(0, 5), st.integers(0, 255)), min_size=0, max_size=6), st.integers(0, 5)).map(decode_case)
+                     st.lists(st.tuples(st.integers(0, 6), st.integers(0, 255)), min_size=0, max_size=6), st.integers(0, 5)).map(decode_case)
 
 
 def shell_unquote(s):
@@ -239,7 +239,7 @@ def check_forgery(w, c):
     return None
 
 
-POOL_PRE = ["stale_link", "foreign_file", "empty_dir", "nonempty_dir", "wrong_link", "link_where_dir"]
+POOL_PRE = ["stale_link", "foreign_file", "empty_dir", "nonempty_dir", "wrong_link", "link_where_dir", "wrong_link_same_time"]
 
 
 def prepare_pool(w, c, poolpre):
@@ -279,11 +279,16 @@ def prepare_pool(w, c, poolpre):
                         os.symlink(os.path.join(w.arr.disk_dirb(nm.decode()), top), p)
                         made["link_over_dir"].append(top)
                         made["stale"] += 1
-            elif k == "wrong_link" and subs:
+            elif k in ("wrong_link", "wrong_link_same_time") and subs:
                 sub = subs[x % len(subs)]
                 p = os.path.join(pool, sub)
                 os.makedirs(os.path.dirname(p), exist_ok=True)
                 os.symlink(b"/wrong/target", p)
+                if k == "wrong_link_same_time":
+                    # what an earlier pool run leaves for a file that has since moved (other disk, other share) keeping its time-stamp
+                    f0 = next(f for d in c.disks.values() for f in d.files if f.sub == sub)
+                    ns = f0.mtime_sec * 10**9 + max(f0.mtime_nsec, 0)
+                    os.utime(p, ns=(ns, ns), follow_symlinks=False)
                 made["stale"] += 1
         except OSError:
             pass
